@@ -147,7 +147,8 @@ def round_trip(rec, label, xml_text, scratch, formats=("xml", "mediawiki", "tsv"
     modes = [True] + ([False] if S.with_standard else [])
     reloaded = {}
     for merged in modes:
-        for fmt in formats:
+        # the TSV format also exists without files: the dict of data frames handed straight back to the loader
+        for fmt in (tuple(formats) + (("dataframes",) if "tsv" in formats else ())):
             rec.n("evaluations")
             rec.n("transitions")
             if edited:
@@ -167,6 +168,9 @@ def round_trip(rec, label, xml_text, scratch, formats=("xml", "mediawiki", "tsv"
                 elif fmt == "mediawiki":
                     text = S.get_as_mediawiki_string(save_merged=merged)
                     R = from_string(text, ".mediawiki")
+                elif fmt == "dataframes":
+                    from hed.schema import from_dataframes
+                    R = from_dataframes(S.get_as_dataframes(save_merged=merged))
                 else:
                     d = os.path.join(scratch, "tsv")
                     shutil.rmtree(d, ignore_errors=True)
